@@ -273,6 +273,9 @@ func directive(doc string) string {
 		if strings.HasPrefix(l, "vc:opaque") {
 			return "opaque"
 		}
+		if strings.HasPrefix(l, "vc:string-uf") {
+			return "string-uf"
+		}
 	}
 	return ""
 }
